@@ -1588,6 +1588,7 @@ def run(ctx, units=None):
                           'running or done (dropped before put_job)',
                           key=core.canon({'what': 'webhook dropped while busy', 'state': state,
                                           'event': c.get('event_key') or c.get('event')}))
+        real_handlers(ctx)
     exhaustive_units = [u for u in units if u[0] == 'dfs']
     incomplete = 0
     slow = 0.0
@@ -1629,10 +1630,60 @@ def run(ctx, units=None):
     ctx.traces_validated = ctx.evaluations
 
 
+def handler_histories():
+    """Every kind of job of the server, on a repository with and without queued pull requests, each followed by more
+    requests: the model takes a job for something that returns or raises - the real handlers are run here through the
+    real put_job / process_task to check that this is all they do to the dispatcher (monitors.mon_c13)."""
+    cfg = {'layout': [[4, 3, None, []], [5, 1, None, []]], 'use_queue': True, 'skip_queue': False,
+           'no_octopus': False, 'peers': 0, 'leaders': 0, 'need_author': False, 'build_key': 'pre-merge',
+           'always_prs': True, 'always_branches': True, 'cmd_line_options': []}
+    src, w = 'bugfix/TEST-1', 'w/5.1/bugfix/TEST-1'
+    opened = [{'e': 'create_pr', 'src': src, 'dst': 'development/4.3', 'label': 'c1'}, {'e': 'job_pr', 'pr': 1}]
+    queued = opened + [{'e': 'build', 'ref': src, 'state': 'SUCCESSFUL'}, {'e': 'build', 'ref': w, 'state': 'SUCCESSFUL'},
+                       {'e': 'job_pr', 'pr': 1}]
+    after = [{'e': 'job_pr', 'pr': 1}, {'e': 'job_commit', 'ref': src},
+             {'e': 'build', 'ref': 'q/w/1/4.3/' + src, 'state': 'SUCCESSFUL'},
+             {'e': 'build', 'ref': 'q/w/1/5.1/' + src, 'state': 'SUCCESSFUL'},
+             {'e': 'job_commit', 'ref': 'q/w/1/5.1/' + src}, {'e': 'job_pr', 'pr': 1}]
+    kinds = [{'e': 'job_api', 'kind': 'delete_queues'}, {'e': 'job_api', 'kind': 'rebuild_queues'},
+             {'e': 'job_api', 'kind': 'force_merge_queues'},
+             {'e': 'job_api', 'kind': 'create_branch', 'args': {'branch': 'development/4.4'}},
+             {'e': 'job_api', 'kind': 'create_branch', 'args': {'branch': 'stabilization/5.1.0'}},
+             {'e': 'job_api', 'kind': 'delete_branch', 'args': {'branch': 'development/4.3'}},
+             {'e': 'job_api', 'kind': 'delete_branch', 'args': {'branch': 'development/9.9'}},
+             {'e': 'job_api', 'kind': 'eval_pr', 'args': {'pr_id': 1}, 'body': {}, 'user': 'author'},
+             {'e': 'job_api', 'kind': 'eval_pr', 'args': {'pr_id': 77}, 'body': {}, 'user': 'author'},
+             {'e': 'job_commit', 'ref': w}, {'e': 'job_commit', 'sha': 'f' * 40},
+             {'e': 'comment', 'user': 'admin', 'pr': 1, 'text': '@bert-e reset'},
+             {'e': 'decline', 'pr': 1}]
+    out = []
+    for pre, tag in ((opened, 'open'), (queued, 'queued')):
+        for k in kinds:
+            mid = [k] if k['e'].startswith('job_') else [k, {'e': 'job_pr', 'pr': 1}]
+            out.append({'cfg': cfg, 'events': pre + mid + after, 'family': 'c13-handlers:%s' % tag})
+            out.append({'cfg': dict(cfg, use_queue=False), 'events': pre + mid + after,
+                        'family': 'c13-handlers:noqueue-%s' % tag})
+    return out
+
+
+def real_handlers(ctx):
+    from lib import sysrun
+    hs = handler_histories()
+    ctx.count('real_handler_histories', len(hs))
+    sysrun.run(ctx, [], 0, ['mon_c13'], do_corr=False, replay_history=hs)
+    n = 16 if ctx.quick else 200
+    sysrun.run(ctx, [ctx.seed * 100000 + 1300 + i for i in range(n)], 14, ['mon_c13'], do_corr=False)
+    ctx.count('real_handler_seeded_histories', n)
+
+
 def replay(ctx, data):
     inp = data['input']
     if ctx.model is None:
         ctx.notes.append('extracted model unavailable')
+        return
+    if 'history' in inp:
+        from lib import sysrun
+        sysrun.run(ctx, [0], 0, ['mon_c13'], do_corr=False, replay_history=inp['history'])
         return
     _env()
     res = _run_unit(('fixed', _cfg_of(inp), inp.get('schedule'), inp.get('model_schedule')))
